@@ -145,6 +145,24 @@ func ItemFlags(w *load.World, c *core.Collector) {
 		}
 		fns := []*ssa.Function{f}
 		fns = append(fns, f.AnonFuncs...)
+		// helpers of the cache that the method leaves the lookup to
+		for _, g := range append([]*ssa.Function{}, fns...) {
+			for _, b := range g.Blocks {
+				for _, in := range b.Instrs {
+					if h := ssax.StaticModuleCallee(in); h != nil && len(h.Blocks) > 0 && load.PkgPath(h) == load.PkgPath(f) && h.Signature.Recv() != nil && h.Name() != "read" {
+						dup := false
+						for _, x := range fns {
+							if x == h {
+								dup = true
+							}
+						}
+						if !dup {
+							fns = append(fns, h)
+						}
+					}
+				}
+			}
+		}
 		for _, g := range fns {
 			for _, b := range g.Blocks {
 				for _, in := range b.Instrs {
